@@ -2,6 +2,7 @@ use crate::report::{CheckOutput, Ctx};
 
 pub mod c01;
 pub mod c02;
+pub mod c03;
 pub mod c06;
 pub mod c09;
 pub mod c10;
@@ -12,6 +13,7 @@ pub fn run(ctx: &Ctx) -> Option<CheckOutput> {
 	Some(match ctx.id.as_str() {
 		"C01" => c01::run(ctx),
 		"C02" => c02::run(ctx),
+		"C03" => c03::run(ctx),
 		"C06" => c06::run(ctx),
 		"C09" => c09::run(ctx),
 		"C10" => c10::run(ctx),
@@ -36,6 +38,7 @@ pub fn replay_file(path: &str) -> i32 {
 		match prop.as_str() {
 			"C01" => c01::replay(case),
 			"C02" => c02::replay(case),
+			"C03" => c03::replay(case),
 			"C06" => c06::replay(case),
 			"C09" => c09::replay(case),
 			"C10" => c10::replay(case),
